@@ -14,6 +14,7 @@ from pyvc.logic import FIELDS
 FUNCTIONS = [
     ('Wire', 'clone', 'method', []),
     ('InnerPin', 'clone', 'method', []),
+    ('OuterPin', 'clone', 'method', []),
 ]
 
 
@@ -48,7 +49,8 @@ def post(fname):
             y = Const('yq_cl', c.Ref)
             out.append(('C07', 'clone-stands-alone', And(
                 Implies(c.isa(r, 'Wire'), And(h['_cable'][r] == c.null, c.len(h['_pins'][r]) == 0, ForAll([y], c.cnt(h['_pins'][r], y) == 0, patterns=[c.cnt(h['_pins'][r], y)]))),
-                Implies(c.isa(r, 'InnerPin'), And(h['_port'][r] == c.null, h['_wire'][r] == c.null)))))
+                Implies(c.isa(r, 'InnerPin'), And(h['_port'][r] == c.null, h['_wire'][r] == c.null)),
+                Implies(c.isa(r, 'OuterPin'), And(h['_instance'][r] == c.null, h['_inner_pin'][r] == c.null, h['_wire'][r] == c.null)))))
         for prop, cname, g in spec.inv.clauses(h):
             out.append(('C07', 'Inv.' + cname, g))
         return out
